@@ -65,3 +65,15 @@ uint64_t verif_native_u64(const char *name)
     if (v) return strtoull(v, 0, 0);
     return next_rand();
 }
+
+uint64_t verif_native_u64_idx(const char *name, unsigned idx)
+{
+    char key[128];
+    const char *v;
+    snprintf(key, sizeof key, "%s[%u]", name, idx);
+    v = lookup(key);
+    if (v) return strtoull(v, 0, 0);
+    v = lookup(name);                 /* small values are stored as a hex byte string */
+    if (v && strlen(v) / 2 > idx) { unsigned x; sscanf(v + 2 * idx, "%2x", &x); return x; }
+    return next_rand();
+}
